@@ -84,7 +84,7 @@ def run(ctx):
     ctx.require_regimes('sed:asc', 'sed:desc', 'cube:asc', 'cube:desc', 'cube:no-unc', 'cube:no-apertures', 'cube:memmap',
                         'convolved:no-apertures', 'unit:erg/s', 'unit:Jy')
     cfg = list(itertools.product(['asc', 'desc'], ['nu', 'wav'], list(FLUX_UNITS), [True, False], [True, False], [True, False]))
-    reps = 1 if ctx.quick else 4
+    reps = 1 if ctx.quick else 20
     d = ctx.newdir('c12')
     ic = 0
     for rep in range(reps):
@@ -160,7 +160,7 @@ def run(ctx):
 
             # ---------------- cube ----------------
             c = SEDCube()
-            c.names = np.array(['cm_%02d' % i for i in range(n_m)])
+            c.names = np.array(rng.permutation(['m%d' % (i * 7 + 1) for i in range(n_m)]))      # not in lexical order
             c.distance = float(gen.loguniform(rng, 0.1, 30.0)) * u.kpc
             if rng.random() < 0.5:
                 c.wav = wav_in * u.micron
